@@ -26,7 +26,7 @@ def tag_of(data):
 
 VARIANTS = ['upgrade_ok', 'upgrade_fail_frame', 'upgrade_fail_close', 'polling_only', 'ws_only',
             'two_sessions', 'close_during', 'upgrade_no_pending_poll', 'backlog_polling', 'backlog_ws',
-            'backlog_upgrade', 'overlapping_opens']
+            'backlog_upgrade', 'overlapping_opens', 'upgrade_fail_accept']
 
 
 class _SlowConnect:
@@ -126,6 +126,14 @@ class Delivery(core.Scenario):
                 sc.ws[sid] = peer.ws_upgrade(sc.world, sid, run=False)
             return core.Action('ws_connect', fire)
 
+        def ws_connect_dropped(sid):
+            # the upgrade request arrives but the peer is gone before the WebSocket handshake is answered:
+            # the driver fails before the Engine.IO handshake handler ever runs
+            def fire(sc):
+                sc.fail_step = sc.world.nstep
+                sc.ws_failed = sc.world.ws(peer.WSQ + '&sid=' + sid, fail_accept=True)
+            return core.Action('ws_connect_dropped', fire)
+
         def frame(sid, data, name, need_pong=False, marks_failure=False):
             def en(sc):
                 s = sc.ws.get(sid)
@@ -177,6 +185,8 @@ class Delivery(core.Scenario):
         elif variant == 'upgrade_fail_close':
             client = [poll(A), ws_connect(A), frame(A, '2probe', 'probe'),
                       frame(A, 'CLOSE', 'ws_close', need_pong=True, marks_failure=True)]
+        elif variant == 'upgrade_fail_accept':
+            client = [poll(A), ws_connect_dropped(A), poll(A, 'late_poll')]
         elif variant == 'polling_only':
             client = [poll(A), poll(A, 'poll2'), poll(A, 'poll3')]
         elif variant == 'ws_only':
@@ -305,7 +315,7 @@ def param_list(ctx):
     ps = []
     for impl in ('sync', 'async'):
         for v in VARIANTS:
-            ks = (2, 3) if v in ('upgrade_ok', 'upgrade_fail_frame') else (2,)
+            ks = (2, 3) if v in ('upgrade_ok', 'upgrade_fail_frame', 'upgrade_fail_accept') else (2,)
             if v.startswith('backlog'):
                 ks = (17, 20, 40)
             if not ctx.quick and v in ('polling_only', 'upgrade_fail_close', 'upgrade_no_pending_poll'):
